@@ -188,6 +188,11 @@ func (st *C16State) turn(kind string, in arrow.RecordBatch, out *vgirpc.OutputCo
 		return out.Finish()
 	case "err":
 		return t.Err.raise()
+	case "emit_err": // a successful Emit (and the late logs), THEN the error / panic of t.Err
+		if err := emit(1); err != nil {
+			return err
+		}
+		return t.Err.raise()
 	}
 	return fmt.Errorf("bad act %q", t.Act)
 }
@@ -498,6 +503,9 @@ func c16CoqTurn(t c16Turn) string {
 	if t.Act == "err" {
 		act = App("C16.AErr", c16Failure(t.Err))
 	}
+	if t.Act == "emit_err" {
+		act = App("C16.AEmitErr", c16Failure(t.Err))
+	}
 	logs := ListOf(t.Logs, func(l LogSpec) string { return App("C04.Build_logmsg", B(l.Level), B(l.Msg), c04KV(l.Extras)) })
 	late := ListOf(t.LateLogs, func(l LogSpec) string { return App("C04.Build_logmsg", B(l.Level), B(l.Msg), c04KV(l.Extras)) })
 	return App("C16.Build_tscript", logs, act, Z(t.Value), c04KV(t.Meta), Bool(t.Peek), late)
@@ -566,6 +574,12 @@ func c16RunCase(in c16In) CaseOut {
 		tags = append(tags, "producer")
 	} else {
 		tags = append(tags, "exchange")
+	}
+	for _, t := range in.Turns {
+		if t.Act == "emit_err" {
+			tags = append(tags, "emit-then-fail-scripted")
+			break
+		}
 	}
 	for _, t := range in.Turns {
 		if len(t.LateLogs) > 0 {
@@ -714,7 +728,10 @@ func c16GenTurn(r *rand.Rand, failing bool) c16Turn {
 		}
 	}
 	if failing {
-		switch r.Intn(6) {
+		switch r.Intn(8) {
+		case 6, 7:
+			e := c11Errs[r.Intn(len(c11Errs))]
+			t.Act, t.Err = "emit_err", &e
 		case 0, 1:
 			e := c11Errs[r.Intn(len(c11Errs))]
 			t.Act, t.Err = "err", &e
@@ -759,6 +776,30 @@ func c16Gen(r *rand.Rand, n int, tier string) []c16In {
 	}
 	out = append(out, c16In{Turns: five, Cancel: "ok", Cache: true, Ops: follow})
 	out = append(out, c16In{Turns: five, Cancel: "none", Cache: false, Ops: follow})
+	// a turn that EMITS its data batch and THEN fails: every error kind (returned rpc / plain / wrapped error,
+	// panic with a string / an error / an int), on turn 0 and on a later turn, bare and with logs before,
+	// logs after the Emit and emit metadata, over an exchange stream and over a producer stream (turn 0 of a
+	// producer runs inside /init); followed by a retry of the same cursor, the cursor the failed turn would
+	// have minted, and a cancel. Also: logs then a panic without any Emit.
+	{
+		lg := []LogSpec{{Level: "INFO", Msg: "before-emit"}}
+		lt := []LogSpec{{Level: "WARN", Msg: "after-emit"}}
+		for k := range c11Errs {
+			e := c11Errs[k]
+			for _, prod := range []bool{false, true} {
+				bare := c16Turn{Act: "emit_err", Value: 7, Err: &e}
+				rich := c16Turn{Act: "emit_err", Value: 7, Err: &e, Logs: lg, LateLogs: lt, Meta: [][2]string{{"um", "1"}}}
+				logpanic := c16Turn{Act: "err", Value: 7, Err: &e, Logs: lg}
+				ops := []c16Op{c16Honest(0, []int64{1}), c16Honest(1, []int64{2}), c16Honest(1, []int64{3}), c16Honest(2, []int64{4}),
+					{Meta: []c16MV{c16Cur(1), c16CallMV(), c16CancelMV("1")}, Body: "tick"}}
+				out = append(out, c16In{Turns: []c16Turn{emit(1), []c16Turn{bare, rich}[k%2], emit(3)}, Cancel: "ok", Cache: k%2 == 0, Prod: prod, Ops: ops})
+				out = append(out, c16In{Turns: []c16Turn{[]c16Turn{rich, bare}[k%2], emit(2), emit(3)}, Cancel: "none", Cache: k%2 == 1, Prod: prod, Ops: ops[:3]})
+				if k%2 == 0 {
+					out = append(out, c16In{Turns: []c16Turn{emit(1), logpanic, emit(3)}, Cancel: "ok", Cache: true, Prod: prod, Ops: ops[:3]})
+				}
+			}
+		}
+	}
 	// replay of old cursors, each replayed twice, then the newest
 	out = append(out, c16In{Turns: five, Cancel: "ok", Cache: true, Ops: []c16Op{c16Honest(0, []int64{1}), c16Honest(0, []int64{2}), c16Honest(1, nil), c16Honest(0, []int64{3}), c16Honest(2, nil), c16Honest(4, nil), c16Honest(9, nil)}})
 	// every failing turn kind at position 1, then a retry with the SAME cursor and a cancel
@@ -917,6 +958,6 @@ func c16Gen(r *rand.Rand, n int, tier string) []c16In {
 }
 
 func init() {
-	Register("C16", "each case is a history against ONE stream on a real HttpServer — an exchange stream (c16x) or, in the producer cases, a producer stream (c16p, producer batch limit 1: one Produce per request, turn 0 inside /init); scripted turns may raise client logs BEFORE and AFTER their Emit (late logs: boundary cases on turn 0 / later turns, one and several, with and without emit metadata, on failing / finishing turns, exchange and producer; 1/4 of random turns) — POST /{m}/init then one POST /{m}/exchange per op; an op = ordered request metadata (literal values, references to the k-th cursor the server minted in this history, the call token) + a {x:int64} or empty-schema body; the scripted state records CallContext.InputMetadata, the input batch's own metadata when the script peeks, TransportMetadata/Cookies/schema metadata. Boundary cases first (honest 6-turn follow with cache on/off, replays of every old cursor, each failing-turn kind followed by a retry of the same cursor and a cancel, cancel at positions 0-2 x 4 hook behaviours x cancel values {1,false,empty}, 12 metadata layouts x cache on/off incl. user values under framework keys before/after the real ones, duplicates, tokens under user keys, missing tokens, a peeking handler, emit metadata under the stream-state key, zero-row emit, swallowed second emit, tick body on a data route), then random histories: 0-6 scripted turns (one failing turn of 6 kinds in 1/2, logs, emit metadata, peek 1/6), 1-9 ops with user metadata from a 10-key pool (framework-looking keys, empty key, case variants) before/between/after the tokens, replayed / unminted / shadowed / missing cursors, missing / shadowed call tokens, cancel key at a random position in 1/7 with 4 values; non-trivial = at least one request reached user code and the history has more than one op; distinct = distinct input JSON",
+	Register("C16", "each case is a history against ONE stream on a real HttpServer — an exchange stream (c16x) or, in the producer cases, a producer stream (c16p, producer batch limit 1: one Produce per request, turn 0 inside /init); a turn may EMIT its data batch and THEN fail (act emit_err: every returned-error and panic kind, turn 0 and later, bare / with logs before and after and emit metadata, exchange and producer, then retry / would-be cursor / cancel; 1/4 of random failing turns); scripted turns may raise client logs BEFORE and AFTER their Emit (late logs: boundary cases on turn 0 / later turns, one and several, with and without emit metadata, on failing / finishing turns, exchange and producer; 1/4 of random turns) — POST /{m}/init then one POST /{m}/exchange per op; an op = ordered request metadata (literal values, references to the k-th cursor the server minted in this history, the call token) + a {x:int64} or empty-schema body; the scripted state records CallContext.InputMetadata, the input batch's own metadata when the script peeks, TransportMetadata/Cookies/schema metadata. Boundary cases first (honest 6-turn follow with cache on/off, replays of every old cursor, each failing-turn kind followed by a retry of the same cursor and a cancel, cancel at positions 0-2 x 4 hook behaviours x cancel values {1,false,empty}, 12 metadata layouts x cache on/off incl. user values under framework keys before/after the real ones, duplicates, tokens under user keys, missing tokens, a peeking handler, emit metadata under the stream-state key, zero-row emit, swallowed second emit, tick body on a data route), then random histories: 0-6 scripted turns (one failing turn of 6 kinds in 1/2, logs, emit metadata, peek 1/6), 1-9 ops with user metadata from a 10-key pool (framework-looking keys, empty key, case variants) before/between/after the tokens, replayed / unminted / shadowed / missing cursors, missing / shadowed call tokens, cancel key at a random position in 1/7 with 4 values; non-trivial = at least one request reached user code and the history has more than one op; distinct = distinct input JSON",
 		c16Gen, c16RunCase)
 }
